@@ -82,7 +82,7 @@ def _always_returns(block):
 
 def _has_return(node_or_block):
     nodes = node_or_block if isinstance(node_or_block, list) else [node_or_block]
-    return any(isinstance(n, ast.Return) for b in nodes for n in ast.walk(b))
+    return any(isinstance(n, ast.Return) and not getattr(n, "_caller", False) for b in nodes for n in ast.walk(b))
 
 
 def _convert(block, mk):
@@ -90,6 +90,9 @@ def _convert(block, mk):
     out = []
     for i, s in enumerate(block):
         rest = block[i + 1:]
+        if isinstance(s, ast.Return) and getattr(s, "_caller", False):
+            out.append(s)           # already a return of the calling function (fused `if x is None: return ...` guard)
+            return out, True
         if isinstance(s, ast.Return):
             out.extend(mk(s.value, s))
             return out, True
@@ -398,6 +401,28 @@ class Inliner:
                                 (loc,) = locs
                                 if loc in _stored(wrapper_) and tname not in _names(wrapper_):
                                     _Ren({loc: tname}).visit(wrapper_)
+                        if mode == "assign" and len(s.targets) == 1 and isinstance(s.targets[0], ast.Name) and i + 1 < len(block):
+                            # `x = self._h(..)` immediately followed by `if x is None: return <const>`: the helper's `return None`
+                            # statements (wherever they are - inside try, loops) become that return of the caller
+                            nxt = block[i + 1]
+                            tn_ = s.targets[0].id
+                            if isinstance(nxt, ast.If) and not nxt.orelse and len(nxt.body) == 1 and isinstance(nxt.body[0], ast.Return) \
+                                    and isinstance(nxt.test, ast.Compare) and len(nxt.test.ops) == 1 and isinstance(nxt.test.ops[0], ast.Is) \
+                                    and isinstance(nxt.test.left, ast.Name) and nxt.test.left.id == tn_ \
+                                    and isinstance(nxt.test.comparators[0], ast.Constant) and nxt.test.comparators[0].value is None \
+                                    and (nxt.body[0].value is None or isinstance(nxt.body[0].value, ast.Constant)):
+                                for b_ in body:
+                                    for n_ in ast.walk(b_):
+                                        if isinstance(n_, ast.Return) and (n_.value is None or (isinstance(n_.value, ast.Constant) and n_.value.value is None)):
+                                            n_.value = copy.deepcopy(nxt.body[0].value)
+                                            n_._caller = True
+                        if mode == "return":
+                            # every return of the helper is a return of the caller: the body is spliced as it is
+                            new_body = body if _always_returns(body) else body + [ast.copy_location(ast.Return(value=None), s)]
+                            block[i:i + 1] = prefix + new_body
+                            inl.done.append((m.name, fn.name, "<helper inlined>", h.name))
+                            changed = True
+                            continue
                         if mode == "expr":
                             mk = lambda e, at: [] if e is None or isinstance(e, (ast.Constant, ast.Name)) else [ast.copy_location(ast.Expr(value=e), at)]
                         elif mode == "assign":
